@@ -768,6 +768,8 @@ func (c *Conn) recv(ctx context.Context) error {
 		// only net errors should cause the connection to be closed. Though
 		// cassandra returning corrupt frames will be returned here as well.
 		if _, ok := err.(net.Error); ok {
+			// the call is no longer registered: nobody else will tell its observer
+			c.abandonStream(call)
 			return err
 		}
 	}
@@ -783,9 +785,23 @@ func (c *Conn) recv(ctx context.Context) error {
 		c.releaseStream(call)
 	case <-ctx.Done():
 		verifConn("r_arm_ctx", c, call, 0, 0)
+		// the connection was closed while this response was being read: the call is no longer
+		// registered, so closeWithError does not reach it
+		c.abandonStream(call)
 	}
 
 	return nil
+}
+
+// abandonStream reports to the stream's observer that no response will be delivered for it.
+func (c *Conn) abandonStream(call *callReq) {
+	if call.streamObserverContext != nil {
+		call.streamObserverEndOnce.Do(func() {
+			call.streamObserverContext.StreamAbandoned(ObservedStream{
+				Host: c.host,
+			})
+		})
+	}
 }
 
 func (c *Conn) releaseStream(call *callReq) {
@@ -1226,6 +1242,8 @@ func (c *Conn) exec(ctx context.Context, req frameBuilder, tracer Tracer) (*fram
 				// been handed another error from another stream which caused the
 				// connection to close.
 				c.releaseStream(call)
+			} else {
+				c.abandonStream(call)
 			}
 			return nil, resp.err
 		}
